@@ -841,6 +841,50 @@ Section OneMessage.
     destruct Hin as [<-|[]]. exact Kd.
   Qed.
 
+  (* UdpClient.update of the (idle) receiver: y1 is its state after the socket has been read *)
+  Lemma client_tick_Y y now r y1 o1 y' o :
+    ep_ok k Ky siy y -> (c_last_recv y >? 0) && (now >? c_last_recv y + 5 * TICKS) = false ->
+    match r with
+    | RxNone => y1 = y /\ o1 = []
+    | RxBadHeader _ => False
+    | RxDgram dg orcs => recv y now dg orcs = (y1, o1)
+    end ->
+    raised o1 = false -> no_emit o1 -> ep_ok k Ky siy y1 ->
+    client_tick e y now r = (y', o) ->
+    ep_ok k Ky siy y' /\ c_bf_pkt y' = c_bf_pkt y1 /\ c_incoming y' = c_incoming y1 /\ c_bf_msg y' = c_bf_msg y1 /\
+    Forall (fun dg => ka_dgram k dg /\ ack_of_window (c_bf_pkt y1) (d_hdr dg)) (flat_map dg_of o).
+  Proof.
+    intros H Hnd Hr Ra Ne H1 E. unfold client_tick, client_update in E.
+    rewrite Hnd, (eo_hello _ _ _ _ H) in E. cbn [Z.eqb negb andb] in E.
+    rewrite (eo_status _ _ _ _ H) in E. cbn [status_eqb status_code Z.eqb app] in E.
+    match type of E with context [match ?z with (_, _) => _ end] => destruct z as [c1 o1'] eqn:E1 end.
+    assert (A : c1 = y1 /\ raised o1' = false /\ no_emit o1').
+    { destruct r as [|er|dg orcs]; [|destruct Hr|].
+      - destruct Hr as [-> ->]. injection E1 as <- <-. auto using no_emit_nil.
+      - rewrite Hr in E1. injection E1 as <- <-. split; [reflexivity|].
+        split; [apply raised_filter_ret; exact Ra|apply no_emit_filter; exact Ne]. }
+    destruct A as (-> & Ra' & Ne'). rewrite Ra' in E.
+    pose proof (eo_si _ _ _ _ H1) as Hsi.
+    destruct (now - c_last_send y1 >? c_send_interval y1) eqn:Hg.
+    - destruct (build_packet e y1 now) as [c2 pk] eqn:E2.
+      destruct (check_timeout false c2 now) as [c3 o3] eqn:E3. injection E as <- <-.
+      assert (Hg' : siy < now - c_last_send y1) by lia.
+      destruct (tick_tail_ep _ _ _ _ _ _ _ _ _ _ _ H1 Hg' E2 E3) as (H3 & _ & B & D & N & _).
+      destruct (tick_tail_window _ _ _ _ _ _ _ _ E2 E3) as [_ Hw].
+      destruct (build_packet_rx _ _ _ _ E2) as [I2 M2].
+      pose proof E3 as E3'. apply check_timeout_frame in E3' as [[_ K3 _ _ _ _ _ M3 I3 _] _].
+      split; [exact H3|]. split; [exact B|]. split; [congruence|]. split; [congruence|].
+      rewrite !flat_map_app, (dg_no_emit _ Ne'), (dg_no_emit _ N), app_nil_r. cbn [app].
+      destruct pk as [pkt|]; [|constructor].
+      assert (Hem : emit c2 pkt = emit c3 pkt) by (apply ClearP.emit_key_only; congruence).
+      specialize (Hw c2). cbn in Hw. rewrite <- hdr_dg_of in Hw. rewrite Forall_forall in Hw.
+      apply Forall_forall. intros dg Hin. split; [|apply Hw; apply in_map; exact Hin].
+      rewrite Hem in Hin.
+      destruct D as [(_ & Ed & _)|(_ & _ & _ & dg' & Ed & Kd & _)]; rewrite Ed in Hin; [destruct Hin|].
+      destruct Hin as [<-|[]]. exact Kd.
+    - injection E as <- <-. split; [exact H1|]. rewrite (dg_no_emit _ Ne'). auto.
+  Qed.
+
   (* ================= the pair ================= *)
   (* th: the network is healed from th on; t0: the time of send; M: the sender's keep-alive period
      max(keep-alive interval, send interval); tau: the sender's update() period; N0: the sender's
